@@ -252,31 +252,68 @@ def run(ctx):
             "(0, 1, ngram-1, ngram, ngram+1, max-1, max, max+1, max+2), foreign-character and one-character mutations; each is "
             "put to find_omen_level, OmenScorer.parse and the per-level MarkovCracker output; non-trivial = the string has a "
             "level or is rejected for a reason other than its length; distinct by (tables, string)")
+    if vio:
+        vio = shrink_all(ctx, vio)
     return {"evaluations": dist["strings"], "distinct_nontrivial": nontrivial, "rule": rule, "samples": samples,
             "corr": corr, "violations": vio, "dist": dist}
+
+
+def check_one(rng, cfg, string, budget):
+    """The three-way oracle on one training configuration (and one string, or generated candidates)."""
+    sc_dir = common.scratch()
+    try:
+        T = ol.Trained(cfg, os.path.join(sc_dir, "r"))
+    except ZeroDivisionError:
+        return []
+    if not T.usable:
+        return []
+    sc, sc_err = T.load_scorer()
+    G, g_err = T.load_guesser()
+    E = {}
+    vio = []
+    if G is not None:
+        tl = [T.trainer_level(p) for p in T.valid]
+        if string is not None:
+            tl.append(T.trainer_level(string))
+        top = min(max([l for l in tl if l >= 0] + [2]) + 1, 16)
+        E = ol.enumerate_sets(G, range(0, top + 1), budget["cap"], budget["per_level"], budget["per_model"])
+        errs = [(L, E[L][3]) for L in E if E[L][3]]
+        for L, _ in errs:
+            E.pop(L)
+        if errs:
+            vio.append({"sig": "C11:guesser-raises", "what": "MarkovCracker raises at target level %d: %s" % errs[0],
+                        "replay": {"training": cfg, "string": None}})
+    cands = [(string, "replay")] if string is not None else ol.candidates(rng, T, E)
+    v, _ = three_way(T, sc, sc_err, G, g_err, E, cands, {"training": cfg})
+    vio += v
+    vio += counts_oracle(T, G, E, {"training": cfg})
+    return vio
+
+
+def shrink_all(ctx, vio, seconds_each=3.0, max_sigs=5):
+    """Per signature: the hit with the smallest training list, delta-debugged, moved to the front."""
+    by = {}
+    for v in vio:
+        tr = (v.get("replay") or {}).get("training")
+        if tr is None:
+            continue
+        if v["sig"] not in by or len(tr["passwords"]) < len(by[v["sig"]]["replay"]["training"]["passwords"]):
+            by[v["sig"]] = v
+    small = {"cap": 3000, "per_level": 0.2, "per_model": 0.6}
+    front = []
+    for sig, v in list(by.items())[:max_sigs]:
+        s = v["replay"].get("string")
+
+        def still(c, sig=sig, s=s):
+            return any(x["sig"] == sig for x in check_one(ctx.rng, c, s, small))
+        cfg2 = ol.shrink_training(v["replay"]["training"], still, seconds_each)
+        hits = [x for x in check_one(ctx.rng, cfg2, s, small) if x["sig"] == sig]
+        front.append(hits[0] if hits else v)
+    return front + vio
 
 
 def replay(ctx, data):
     inp = data.get("input") or {}
     if "training" not in inp:
         return []
-    sc_dir = common.scratch()
-    budget = {"cap": 50000, "per_level": 5.0, "per_model": 30.0}
-    cfg = inp["training"]
-    T = ol.Trained(cfg, os.path.join(sc_dir, "r"))
-    if not T.usable:
-        return []
-    sc, sc_err = T.load_scorer()
-    G, g_err = T.load_guesser()
-    E = {}
-    if G is not None:
-        tl = [T.trainer_level(p) for p in T.valid]
-        s = inp.get("string")
-        if s is not None:
-            tl.append(T.trainer_level(s))
-        top = min(max([l for l in tl if l >= 0] + [2]) + 1, 16)
-        E = ol.enumerate_sets(G, range(0, top + 1), budget["cap"], budget["per_level"], budget["per_model"])
-    cands = [(inp["string"], "replay")] if inp.get("string") is not None else ol.candidates(ctx.rng, T, E)
-    vio, _ = three_way(T, sc, sc_err, G, g_err, E, cands, {"training": cfg})
-    vio += counts_oracle(T, G, E, {"training": cfg})
-    return vio
+    return check_one(ctx.rng, inp["training"], inp.get("string"), {"cap": 50000, "per_level": 5.0, "per_model": 30.0})
